@@ -295,6 +295,9 @@ type kase struct {
 	AwkDef  bool     `json:"awkdef"`  // an AWK function with the target's name is defined too
 	Args    []aval   `json:"args"`
 	ConvFmt string   `json:"convfmt"`
+	// Route "hist": ParseProgram with Funcs, interp.New once, then one Execute per element of Maps;
+	// a nil element is the parser's own map (the same Go map value), any other a different map.
+	Maps [][]fspec `json:"maps,omitempty"`
 }
 
 func (c *kase) rebuild()       {}
@@ -346,8 +349,18 @@ func (c kase) views() string {
 		}
 	}
 	// the result is observed through a string, a float64 and a bool parameter
-	t := c.target()
-	if len(t.Outs) > 0 {
+	targets := []fspec{c.target()}
+	for _, m := range c.Maps {
+		for _, f := range m {
+			if f.Name == c.target().Name {
+				targets = append(targets, f)
+			}
+		}
+	}
+	for _, t := range targets {
+		if len(t.Outs) == 0 {
+			continue
+		}
 		d := t.Outs[0]
 		switch d.Tag {
 		case 'S', 'Y':
@@ -396,6 +409,13 @@ func (c kase) line() string {
 	if c.AwkDef {
 		awk = hx.HexS(t.Name)
 	}
+	if c.Route == "hist" {
+		var ms []string
+		for _, m := range c.Maps {
+			ms = append(ms, wireFuncs(c.stepFuncs(m)))
+		}
+		return strings.Join([]string{"hist", c.views(), strings.Join(fs, "|"), awk, hx.HexS(t.Name), c.wireArgs(), strings.Join(ms, "^")}, " ")
+	}
 	return strings.Join([]string{"run", c.views(), strings.Join(fs, "|"), awk, hx.HexS(t.Name), c.wireArgs()}, " ")
 }
 
@@ -436,6 +456,29 @@ func (c kase) describe() string {
 	}
 	if c.ConvFmt != "%.6g" {
 		d += " CONVFMT=" + c.ConvFmt
+	}
+	if c.Route == "hist" {
+		d += "; interp.New once, then Execute with"
+		for j, m := range c.Maps {
+			if m == nil {
+				d += fmt.Sprintf(" [%d] the same map", j+1)
+				continue
+			}
+			var ns []string
+			for _, f := range m {
+				x := f.Name + "="
+				switch f.Kind {
+				case "nil":
+					x += "nil"
+				case "nonfunc":
+					x += "42"
+				default:
+					x += f.goSig()
+				}
+				ns = append(ns, x)
+			}
+			d += fmt.Sprintf(" [%d] another map {%s}", j+1, strings.Join(ns, ", "))
+		}
 	}
 	return d
 }
@@ -534,9 +577,21 @@ type implResult struct {
 	obs    string // what OBS received (run route)
 	raw    string // message for humans
 	called []string
+	steps  []implResult // route hist: one per Execute (or the single parse outcome, with parseOnly)
+	parseOnly bool
 }
 
 func (r implResult) cmp(route string) string {
+	if route == "hist" {
+		var p []string
+		for _, s := range r.steps {
+			p = append(p, s.cmp("run"))
+		}
+		if r.parseOnly {
+			return "parse " + strings.Join(p, " ; ")
+		}
+		return "steps " + strings.Join(p, " ; ")
+	}
 	switch r.kind {
 	case "ok":
 		if route == "call" {
@@ -554,6 +609,14 @@ func (r implResult) cmp(route string) string {
 // modelCmp brings the model's answer to the same shape (the run route cannot see the type
 // of the result value, only what the three observer parameters receive).
 func modelCmp(route, m string) string {
+	if route == "hist" {
+		head, rest, _ := strings.Cut(m, " ")
+		var p []string
+		for _, s := range strings.Split(rest, " ; ") {
+			p = append(p, modelCmp("run", s))
+		}
+		return head + " " + strings.Join(p, " ; ")
+	}
 	f := strings.Fields(m)
 	if route == "run" && len(f) == 4 && f[0] == "ok" {
 		return "ok " + f[1] + " " + f[3]
@@ -640,6 +703,9 @@ func runImpl(c kase) (res implResult) {
 		}
 	}()
 	t := c.target()
+	if c.Route == "hist" {
+		return runHist(c)
+	}
 	if c.Route == "call" {
 		args := make([]interp.VerifValue, len(c.Args))
 		for i, a := range c.Args {
@@ -680,12 +746,17 @@ func runImpl(c kase) (res implResult) {
 	src, stdin := c.program()
 	cfg := &interp.Config{Funcs: funcs, Environ: []string{}, Stdin: strings.NewReader(stdin), Vars: []string{"FS", "|", "CONVFMT", c.ConvFmt}}
 	rr := hx.RunAwk(src, cfg, &parser.ParserConfig{Funcs: funcs})
-	if rr.Panic != nil {
-		return implResult{kind: "panic", detail: classifyPanic(rr.Panic), raw: fmt.Sprint(rr.Panic), called: rec.called}
+	return classifyRun(c, rec, rr.Panic, rr.Err, string(rr.Out))
+}
+
+// classifyRun turns what one ParseProgram/Execute returned into an implResult.
+func classifyRun(c kase, rec *recorder, pnc any, err error, out string) implResult {
+	if pnc != nil {
+		return implResult{kind: "panic", detail: classifyPanic(pnc), raw: fmt.Sprint(pnc), called: rec.called}
 	}
-	if rr.Err != nil {
-		msg := rr.Err.Error()
-		switch e := rr.Err.(type) {
+	if err != nil {
+		msg := err.Error()
+		switch e := err.(type) {
 		case *parser.ParseError:
 			switch {
 			case strings.Contains(e.Message, "called with more arguments than declared"):
@@ -701,7 +772,7 @@ func runImpl(c kase) (res implResult) {
 				return implResult{kind: "setup-error", detail: hx.HexS(name) + " " + code, raw: msg}
 			}
 		}
-		if id := errID(rr.Err); id >= 0 {
+		if id := errID(err); id >= 0 {
 			return implResult{kind: "run-error", detail: strconv.Itoa(id), recv: rec.recv, raw: msg, called: rec.called}
 		}
 		return implResult{kind: "other", detail: hx.HexS(msg), raw: msg, called: rec.called}
@@ -713,7 +784,7 @@ func runImpl(c kase) (res implResult) {
 		return implResult{kind: "other", detail: "awk-function-did-not-take-precedence", raw: rec.obs, called: rec.called}
 	}
 	if !rec.obsSet {
-		return implResult{kind: "other", detail: "no-observation", raw: string(rr.Out), called: rec.called}
+		return implResult{kind: "other", detail: "no-observation", raw: out, called: rec.called}
 	}
 	return implResult{kind: "ok", recv: rec.recv, obs: rec.obs, called: rec.called}
 }
